@@ -542,7 +542,7 @@ var (
 	}()
 	// initform nil lives in a family of its own: on the pinned tree it faults in make-instance,
 	// and mixed with the shared initarg k the fault would come and go with Go map order (S9)
-	alphaNil = []string{"-.-", "o.-", "f.-", "n.-", "an.-"}
+	alphaNil     = []string{"-.-", "o.-", "f.-", "n.-", "an.-"}
 	alphaCurated = []string{"-.-", "o.-", "f.-", "a.-", "af.-", "k.-", "-.k", "-.kf", "f.k", "k.k", "af.kf", "b.-", "bf.-"}
 	alphaSmall   = []string{"-.-", "f.-", "a.-", "af.-", "k.k"}
 	alphaTiny    = []string{"-.-", "f.-", "af.-"}
